@@ -75,16 +75,17 @@ type Hyp struct {
 }
 
 type State struct {
-	vars    map[types.Object]Val
-	heap    map[string]Term // memory / heap arrays by name
-	hyps    []Hyp
-	written Term
-	allocs  []Term
-	refs    []Term
+	vars     map[types.Object]Val
+	heap     map[string]Term // memory / heap arrays by name
+	hyps     []Hyp
+	written  Term
+	allocs   []Term
+	refs     []Term
+	allocTop Term // frontier of object references: every live reference is below it
 }
 
 func (s *State) clone() *State {
-	n := &State{vars: make(map[types.Object]Val, len(s.vars)), heap: make(map[string]Term, len(s.heap)), written: s.written}
+	n := &State{vars: make(map[types.Object]Val, len(s.vars)), heap: make(map[string]Term, len(s.heap)), written: s.written, allocTop: s.allocTop}
 	for k, v := range s.vars {
 		n.vars[k] = v
 	}
@@ -127,7 +128,47 @@ type intKind struct {
 	signed bool
 }
 
+// resolveTP maps a type parameter to a representative of its type set (the
+// first term of the constraint): generic code is verified for that instance.
+func resolveTP(t types.Type) types.Type {
+	tp, ok := t.(*types.TypeParam)
+	if !ok {
+		return t
+	}
+	if iface, ok := tp.Constraint().Underlying().(*types.Interface); ok {
+		for i := 0; i < iface.NumEmbeddeds(); i++ {
+			switch e := iface.EmbeddedType(i).(type) {
+			case *types.Union:
+				if e.Len() > 0 {
+					// prefer a 64-bit member when present
+					for j := 0; j < e.Len(); j++ {
+						if b, ok := e.Term(j).Type().Underlying().(*types.Basic); ok && (b.Kind() == types.Int64 || b.Kind() == types.Float64) {
+							return e.Term(j).Type()
+						}
+					}
+					return e.Term(0).Type()
+				}
+			case *types.Named:
+				if u, ok := e.Underlying().(*types.Interface); ok {
+					for k := 0; k < u.NumEmbeddeds(); k++ {
+						if un, ok := u.EmbeddedType(k).(*types.Union); ok && un.Len() > 0 {
+							for j := 0; j < un.Len(); j++ {
+								if b, ok := un.Term(j).Type().Underlying().(*types.Basic); ok && (b.Kind() == types.Int64 || b.Kind() == types.Float64) {
+									return un.Term(j).Type()
+								}
+							}
+							return un.Term(0).Type()
+						}
+					}
+				}
+			}
+		}
+	}
+	return t
+}
+
 func intInfo(t types.Type) (intKind, bool) {
+	t = resolveTP(t)
 	b, ok := t.Underlying().(*types.Basic)
 	if !ok {
 		return intKind{}, false
@@ -161,6 +202,7 @@ func (k intKind) rangeOf(t Term) Term {
 }
 
 func isFloat(t types.Type) (Sort, bool) {
+	t = resolveTP(t)
 	b, ok := t.Underlying().(*types.Basic)
 	if !ok {
 		return "", false
@@ -190,6 +232,7 @@ func isComplex(t types.Type) (Sort, bool) {
 
 // scalarSort returns the SMT sort for scalar-like Go types ("" if not scalar).
 func scalarSort(t types.Type) Sort {
+	t = resolveTP(t)
 	if _, ok := intInfo(t); ok {
 		return SInt
 	}
